@@ -9,6 +9,26 @@ sys.path.insert(0, HERE)
 from mutants import M
 
 
+def seeded_mutants():
+    """Independently written breaking changes kept under /verif/seeded/<id>/ (patch.diff + meta.json): each must be
+    reported by the check of the property it breaks."""
+    out = []
+    sd = os.path.join(VERIF, 'seeded')
+    if os.path.isdir(sd):
+        for d in sorted(os.listdir(sd)):
+            pf = os.path.join(sd, d, 'patch.diff')
+            mf = os.path.join(sd, d, 'meta.json')
+            if os.path.exists(pf) and os.path.exists(mf):
+                meta = json.load(open(mf))
+                exp = meta.get('expect_key', '')
+                out.append(dict(id='seed-' + d, prop=meta.get('check_property', meta['property']), patch=pf, expect=exp,
+                                note=meta.get('summary', '')[:100], tier='quick'))
+    return out
+
+
+M = M + seeded_mutants()
+
+
 def run_one(mu, slot):
     t0 = time.time()
     scratch = tempfile.mkdtemp(prefix='kvscratch-')
@@ -20,11 +40,17 @@ def run_one(mu, slot):
                 shutil.copytree(src, dst, ignore=shutil.ignore_patterns('target'))
             else:
                 shutil.copy(src, dst)
-        path = os.path.join(scratch, 'crates', 'kira', 'src', mu['file'])
-        s = open(path).read()
-        if s.count(mu['old']) != 1:
-            return dict(id=mu['id'], ok=False, status='anchor text occurs %d times (mutant out of date)' % s.count(mu['old']), keys=[])
-        open(path, 'w').write(s.replace(mu['old'], mu['new']))
+        if mu.get('patch'):
+            subprocess.run(['git', 'init', '-q'], cwd=scratch)
+            r = subprocess.run(['git', 'apply', '--whitespace=nowarn', mu['patch']], cwd=scratch, stdout=subprocess.PIPE, stderr=subprocess.STDOUT, text=True)
+            if r.returncode != 0:
+                return dict(id=mu['id'], ok=False, status='seeded patch no longer applies: ' + r.stdout[-200:], keys=[])
+        else:
+            path = os.path.join(scratch, 'crates', 'kira', 'src', mu['file'])
+            s = open(path).read()
+            if s.count(mu['old']) != 1:
+                return dict(id=mu['id'], ok=False, status='anchor text occurs %d times (mutant out of date)' % s.count(mu['old']), keys=[])
+            open(path, 'w').write(s.replace(mu['old'], mu['new']))
         ev = os.path.join(scratch, 'evidence')
         env = dict(os.environ, KV_REPO=scratch, KV_EVIDENCE=ev, KV_KEEP_FACTS='1', KV_NO_SELFTEST='1',
                    KV_TARGET=os.path.join(VERIF, '.cache', 'target-scratch-%d' % slot))
